@@ -77,7 +77,8 @@ def model_spec(feat: dict):
     labels = ["d1", "d2"] if two else ["d1"]
     spec: dict = {
         "megacomplex": {"m1": {"type": "decay", "k_matrix": ["k1"]}},
-        "k_matrix": {"k1": {"matrix": {("s2", "s1"): "rates.k.1", ("s2", "s2"): "rates.k.2", ("s3", "s2"): "rates.k.3", ("s3", "s3"): "rates.k.4"}}},
+        # declared in an order that is not the sorted order of the (to, from) keys
+        "k_matrix": {"k1": {"matrix": {("s3", "s3"): "rates.k.4", ("s2", "s1"): "rates.k.1", ("s3", "s2"): "rates.k.3", ("s2", "s2"): "rates.k.2"}}},
         "initial_concentration": {"j1": {"compartments": ["s1", "s2", "s3"], "parameters": ["inputs.1", "inputs.0", "inputs.0"]}},
         "irf": {},
         "dataset": {},
